@@ -105,6 +105,9 @@ Qed.
 (* computed facts about the generated ExtType codes: ext_hook decodes what default() wrote *)
 Lemma codes_ok : ext_codes_match = true.
 Proof. reflexivity. Qed.
+(* ... and the byte codecs of the ExtType payloads are the ones the assumption "ext_hook inverts default" was validated for *)
+Lemma codecs_known : ext_codecs_known = true.
+Proof. reflexivity. Qed.
 Lemma long_ok : N.eqb ext_long hook_long = true.
 Proof. reflexivity. Qed.
 Lemma complex_ok : N.eqb ext_complex hook_complex = true.
